@@ -44,6 +44,11 @@ def run_unit(tc, unit, route, q, workdir, name=None, keep=False, timeout=300, co
     try:
         if route == 'interp':
             r = tc.interp(src, q, d, timeout=timeout)
+        elif route == 'interp-ao':
+            # compile to a saved object, then interpret the object (no front end in the second run)
+            r = tc.aldor(list(q) + ['-Fao', os.path.basename(src)], d, timeout=timeout)
+            if r.rc == 0 and not r.timeout:
+                r = tc.aldor([tc.lib, '-Ginterp', name + '.ao'], d, timeout=timeout)
         elif route == 'c':
             exe, r = tc.cexe(src, q, d, copts=copts, timeout=timeout)
             if exe:
